@@ -96,6 +96,14 @@ class RoundingFilter(Exception):
         self.node = node
 
 
+class LazySeq:
+    """a generator expression over the rows of the sorted table (or over another such expression) that has not been consumed:
+    `next()` of it is a search -- the first row at which its filters hold"""
+
+    def __init__(self, node, env, source):
+        self.node, self.env, self.source = node, env, source     # source: ("range", start) | ("rows", table, start) | LazySeq
+
+
 class ReduceEval(ObjEvaluator):
     def __init__(self, mod, cell):
         ObjEvaluator.__init__(self, mod, inline=set(), call_policy=self.cpol, max_depth=8)
@@ -222,7 +230,56 @@ class ReduceEval(ObjEvaluator):
             return self._np_call("any", [base], {}, node)
         return ObjEvaluator.method_call(self, base, attr, args, kwargs, node)
 
+    def e_GeneratorExp(self, node, env):
+        if self.phase == "picking" and len(node.generators) == 1 and not node.generators[0].is_async:
+            g = node.generators[0]
+            it = self.eval(g.iter, env)
+            src = None
+            if isinstance(it, LazySeq):
+                src = it
+            elif isinstance(it, tuple) and it and it[0] == "symbolic-range":
+                src = ("range", it[1][0] if len(it[1]) >= 2 else Rat.const(0))
+            elif isinstance(it, list) and it and all(const_int(x) is not None for x in it) and len(it) > 8:
+                src = ("range", scalar(it[0]))
+            elif isinstance(it, tuple) and len(it) == 3 and it[0] == "table-rows":
+                src = ("rows", it[1], it[2])
+            elif isinstance(it, SortedTable):
+                src = ("rows", it, Rat.const(0))
+            if src is not None:
+                return LazySeq(node, dict(env), src)
+            self.hand_down(g.iter, it)
+        return ObjEvaluator.e_GeneratorExp(self, node, env)
+
+    def first_hit(self, lazy, node):
+        """next(<lazy search>, default): the same summary as a `for` loop that stores and stops at its first hit (the filters
+        are the guards; a generator expression stores nothing, so a miss leaves no trace); no hit at all is a degenerate
+        lattice, outside the claim"""
+        chain, s_ = [], lazy
+        while isinstance(s_, LazySeq):
+            chain.append(s_)
+            s_ = s_.source
+        k = len(self.loops)
+        idx = Rat.atom("idx%d*" % k)
+        start = s_[1] if s_[0] == "range" else s_[2]
+        val = idx if s_[0] == "range" else Arr(s_[1].row("idx%d*" % k))
+        self.loops.append({"start": start, "index": idx, "node": lazy.node, "broke": True, "trace": []})
+        self.mode = "hit"
+        try:
+            for lz in reversed(chain):
+                g = lz.node.generators[0]
+                e_ = dict(lz.env)
+                self.assign(g.target, val, e_)
+                for cond in g.ifs:
+                    if not self.decide(cond, e_):
+                        raise AnalysisError("reduce_cell: a filter of the lazy search does not hold at its hit (line %d)" % cond.lineno)
+                val = self.eval(lz.node.elt, e_)
+        finally:
+            self.mode = None
+        return val
+
     def builtin(self, name, args, kwargs, node):
+        if name == "next" and args and isinstance(args[0], LazySeq):
+            return self.first_hit(args[0], node)
         if name == "len" and args and isinstance(args[0], (SortedTable, TableView, MappedTable)):
             return Rat.const(args[0].n)
         if name == "range" and any(const_int(a) is None for a in args):
